@@ -12,7 +12,7 @@ MANIFEST = {
             'deepcopy (and by a dill round trip on a sub-family; thorough: all) after 0, 1 or 2 preceding operations; then every interleaving of up to 2 operations per object (thorough 3) '
             'from {plain calculation, two different overrides, compiled call, re-finish} is executed on the pair. Every result must equal what a freshly built model returns for the '
             'same operation (so the copy is equivalent and neither object can see the other\'s operations). The same is done for compiled functions (ExcelModel.compile and '
-            'Parser.compile) and their copies with all argument-tuple interleavings. Further models: constant array formulas entered in ranges larger than their result, and a sparse range read through the dispatcher\'s self reference.',
+            'Parser.compile) and their copies with all argument-tuple interleavings. Further models: constant array formulas entered in ranges larger than their result, and a sparse range read through the dispatcher\'s self reference. An original and two copies (deepcopy/dill) are each extended with new cells through from_dict (every assignment of 3 extensions to the 3 objects, every order) and must equal a fresh model extended the same way.',
     'note': 'Trusted: the fresh-model result as reference (history independence of a single model is C07). Shared mutable objects are reported in the evidence but judged only through results.',
 }
 RULE = 'case = (model, copy kind, preceding ops, interleaving); non-trivial = both objects operated; distinct = case key'
@@ -191,6 +191,73 @@ def run_pair(case):
     return result(ex, sorted(oc), fails[:3])
 
 
+# ---- objects extended after the copy: original and two copies, each given (at most) one extension, in every order -----------
+XP = "'[b.xlsx]S'!"
+EXT = {
+    'X1': {XP + 'K2': 5},
+    'X2': {XP + 'L1': '=SUM(%sK1:K3)' % XP, XP + 'L2': '=SUM(%sK1:K3)+%sA1' % (XP, XP)},
+    'X3': {XP + 'K2': 7, XP + 'L1': '=%sK2*2+%sA1' % (XP, XP), XP + 'K3': '=%sK2+1' % XP},
+}
+
+
+def extend_cases(tier):
+    whos = ['o', 'c1', 'c2']
+    for model in ('a', 'b', 'd'):
+        for kinds in (('deepcopy', 'deepcopy'), ('dill', 'dill'), ('deepcopy', 'dill')):
+            if tier == 'quick' and kinds != ('deepcopy', 'deepcopy') and model != 'a':
+                continue
+            for assign in itertools.product([None] + list(EXT), repeat=3):
+                ext = [(w, x) for w, x in zip(whos, assign) if x]
+                if len(ext) < 2:
+                    continue
+                for order in itertools.permutations(ext):
+                    yield ['extend', model, list(kinds), [list(x) for x in order]]
+
+
+_XREF = {}
+
+
+def xcanon(model, sol):
+    import numpy as np
+    from xl.evalcell import classify_array
+    return {k: classify_array(np.asarray(v.value, object)) for k, v in sol.items() if isinstance(k, str) and k.startswith("'[") and hasattr(v, 'value')}
+
+
+def run_extend(case):
+    _, model, kinds, order = case
+    from xl.evalcell import exc_name
+    fails, ex = [], 0
+    desc = dict(model=model, copy='+'.join(kinds), seq=json.dumps(order))
+    try:
+        m = fresh(model)
+        objs = {'o': m, 'c1': do_copy(m, kinds[0]), 'c2': do_copy(m, kinds[1])}
+        for w, x in order:
+            objs[w].from_dict(dict(EXT[x]))
+            ex += 1
+        for w, x in order:
+            got = xcanon(model, objs[w].calculate())
+            ex += 1
+            if (model, x) not in _XREF:
+                _XREF[(model, x)] = xcanon(model, fresh(model).from_dict(dict(EXT[x])).calculate())
+            exp = _XREF[(model, x)]
+            if got != exp:
+                d = c07.first_diff(got, exp)
+                fails.append(Fail('interference', got=d[0], exp=d[1], who=w, op=x, step=0, **desc))
+                break
+        # the objects that were not extended still equal a fresh model
+        for w in objs:
+            if w not in [a for a, _ in order]:
+                got = xcanon(model, objs[w].calculate())
+                if (model, None) not in _XREF:
+                    _XREF[(model, None)] = xcanon(model, fresh(model).calculate())
+                if got != _XREF[(model, None)]:
+                    d = c07.first_diff(got, _XREF[(model, None)])
+                    fails.append(Fail('interference', got=d[0], exp=d[1], who=w, op='none', step=0, **desc))
+    except Exception as e:
+        fails.append(Fail('escape', got='%s:%s' % (exc_name(e), str(e)[:100]), exp='a result', who='?', op='extend', step=0, **desc))
+    return result(ex, ['extend:%s' % model], fails[:3])
+
+
 def run_func(case):
     _, which, kind = case
     import numpy as np
@@ -239,11 +306,14 @@ def run_func(case):
 
 
 def run_case(case):
+    if case[0] == 'extend':
+        return run_extend(case)
     return run_pair(case) if case[0] == 'pair' else run_func(case)
 
 
 def run(ctx):
     ctx.explore(run_case, cases(ctx.tier), chunksize=2, label='pairs')
+    ctx.explore(run_case, extend_cases(ctx.tier), chunksize=8, label='objects extended after the copy')
     # report (not judge) mutable objects shared between an original and its deep copy
     from mc.fingerprint import mutable_ids
     shared = {}
